@@ -109,7 +109,7 @@ pub fn run(args: &Args, rep: &mut Report) {
         // canaries
         let canary = b.alloc_slice_fill_copy(32, 0x77u8) as *const [u8];
         for opi in 0..args.ops {
-            let sc = rng.below(16);
+            let sc = rng.below(18);
             rep.ctx = format!("boxdiff program {} op {} scenario {} (seed {} shard {})", it, opi, sc, args.seed, args.shard);
             sig = fnv(sig, sc as u64);
             rep.bump(&format!("box.sc{}", sc));
@@ -530,6 +530,90 @@ pub fn run(args: &Args, rep: &mut Report) {
                     if inner != v {
                         v17(rep, "into_inner/value-changed", String::new());
                     }
+                }
+                16 => {
+                    // a boxed iterator that owns droppable state, consumed through every by-value and
+                    // by-reference Iterator method: the state is dropped exactly once, items agree with std
+                    struct DropIter {
+                        guard: Tracked,
+                        cur: u32,
+                        end: u32,
+                    }
+                    impl Iterator for DropIter {
+                        type Item = u32;
+                        fn next(&mut self) -> Option<u32> {
+                            let _ = self.guard.key;
+                            if self.cur < self.end {
+                                self.cur += 1;
+                                Some(self.cur - 1)
+                            } else {
+                                None
+                            }
+                        }
+                    }
+                    let lo = rng.below(5) as u32;
+                    let hi = lo + rng.below(6) as u32;
+                    let how = rng.below(9);
+                    let mark = ledger::log_len();
+                    let g = Tracked::new(11);
+                    let id = g.id;
+                    let dynamic = rng.chance(1, 2);
+                    let reference = || lo..hi;
+                    macro_rules! consume {
+                        ($it:expr) => {{
+                            let mut it = $it;
+                            let pre = rng.below(3);
+                            for _ in 0..pre {
+                                let _ = it.next();
+                            }
+                            let mut r = reference();
+                            for _ in 0..pre {
+                                let _ = r.next();
+                            }
+                            let (got, want): (Vec<u32>, Vec<u32>) = match how {
+                                0 => (it.last().into_iter().collect(), r.last().into_iter().collect()),
+                                1 => (vec![it.count() as u32], vec![r.count() as u32]),
+                                2 => (it.collect(), r.collect()),
+                                3 => (vec![it.fold(0, |a, x| a + x)], vec![r.fold(0, |a, x| a + x)]),
+                                4 => {
+                                    let a = it.nth(1);
+                                    let b = r.nth(1);
+                                    drop(it);
+                                    (a.into_iter().collect(), b.into_iter().collect())
+                                }
+                                5 => {
+                                    let mut v = Vec::new();
+                                    for x in it {
+                                        v.push(x);
+                                    }
+                                    (v, r.collect())
+                                }
+                                6 => (it.map(|x| x * 2).filter(|x| x % 4 == 0).collect(), r.map(|x| x * 2).filter(|x| x % 4 == 0).collect()),
+                                7 => (vec![it.max().unwrap_or(0), 1], vec![r.max().unwrap_or(0), 1]),
+                                _ => {
+                                    let s = it.size_hint();
+                                    drop(it);
+                                    (vec![s.0 as u32], vec![0])
+                                }
+                            };
+                            if got != want {
+                                v17(rep, "boxed-iterator/items-differ-from-unboxed", format!("how {} got {:?} want {:?}", how, got, want));
+                            }
+                        }};
+                    }
+                    if dynamic {
+                        let bx = BBox::new_in(DropIter { guard: g, cur: lo, end: hi }, b);
+                        let dy: BBox<dyn Iterator<Item = u32>> = unsafe { BBox::from_raw(BBox::into_raw(bx) as *mut dyn Iterator<Item = u32>) };
+                        consume!(dy);
+                    } else {
+                        let bx = BBox::new_in(DropIter { guard: g, cur: lo, end: hi }, b);
+                        consume!(bx);
+                    }
+                    let d = drops_since(mark);
+                    if d != vec![id] {
+                        vdrop(rep, &format!("boxed-iterator/state-not-dropped-exactly-once/{}", ["last", "count", "collect", "fold", "nth+drop", "for", "adaptors", "max", "size_hint+drop"][how]), format!("drops {:?} expected [{}] (dyn={})", d, id, dynamic));
+                    }
+                    rep.bump("c15.box_drop_checks");
                 }
                 _ => {
                     // a box dropped while younger allocations exist: nothing of theirs changes
